@@ -605,3 +605,25 @@ package genql
 
 //@ func ExecGroupBy
 //@   order[C03]
+
+// ---------------------------------------------------------------------------
+// C06: DISTINCT and UNION
+
+//@ func ExecDistinct
+//@   ensures off[C06]: !query.distinct ==> err == nil && result == current
+//@   at-call append@loop0 assert kept-is-current-row[C06]: appended == rangevalue
+//@   loop 0 ascending-range rows[C06]: current
+
+//@ func BuildUnion
+//@   ensures concat[C06]: err == nil ==> len(query.from) == len(callresult(unionBranch, 0, 1)) + len(callresult(unionBranch, 0, 2))
+//@   ensures every-column[C06]: err == nil ==> len(query.selectDefinition.Exprs) == 1 && typeis(query.selectDefinition.Exprs[0], *sqlparser.StarExpr)
+//@   ensures duplicates[C06]: err == nil ==> query.distinct == old(expr.Distinct)
+//@   at-call unionBranch assert same-document[C06,C07]: arg0 == query && arg2 == expr.With
+
+//@ func unionBranch
+//@   nullable with
+//@   at-call Prepare assert branch[C06]: arg0 == query.data && arg2 == query.options
+
+//@ func IsSelectAllAggregate
+//@   loop 0 invariant first-is-aliased[C06,C03]: rangeindex >= 0 ==> typeis(query.selectDefinition.Exprs[0], *sqlparser.AliasedExpr)
+//@   ensures star-is-not-aggregate[C06,C03]: len(query.selectDefinition.Exprs) > 0 && typeis(query.selectDefinition.Exprs[0], *sqlparser.StarExpr) ==> !result
